@@ -191,6 +191,9 @@ def create_junction(net, pn_bar, tfluid_k, height_m=0, name=None, index=None, in
     :Example:
         >>> create_junction(net, pn_bar=5, tfluid_k=320)
     """
+    if geodata is not None and len(geodata) != 2:
+        raise UserWarning("geodata must be given as (x, y) tuple")
+
     add_new_component(net, Junction)
 
     index = _get_index_with_check(net, "junction", index)
@@ -201,8 +204,6 @@ def create_junction(net, pn_bar, tfluid_k, height_m=0, name=None, index=None, in
     _set_entries(net, "junction", index, **dict(zip(cols, vals)), **kwargs)
 
     if geodata is not None:
-        if len(geodata) != 2:
-            raise UserWarning("geodata must be given as (x, y) tuple")
         net["junction_geodata"].loc[index, ["x", "y"]] = geodata
 
     return index
@@ -229,7 +230,7 @@ def create_sink(net, junction, mdot_kg_per_s, scaling=1., name=None, index=None,
     :param in_service: True for in service, False for out of service
     :type in_service: bool, default True
     :param type: Type variable to classify the sink
-    :type type: str, default None
+    :type type: str, default "sink"
     :param kwargs: Additional keyword arguments will be added as further columns to the\
             net["sink"] table
     :return: index - The unique ID of the created element
@@ -272,7 +273,7 @@ def create_source(net, junction, mdot_kg_per_s, scaling=1., name=None, index=Non
     :param in_service: True for in service, False for out of service
     :type in_service: bool, default True
     :param type: Type variable to classify the source
-    :type type: str, default None
+    :type type: str, default "source"
     :param kwargs: Additional keyword arguments will be added as further columns to the\
             net["source"] table
     :return: index - The unique ID of the created element
@@ -308,7 +309,7 @@ def create_mass_storage(net, junction, mdot_kg_per_s, init_m_stored_kg=0, min_m_
                           if fluid flows from storage to net: < 0)
     :type mdot_kg_per_s: float, default None
     :param init_m_stored_kg: The initially stored mass in the storage
-    :type init_m_stored_kg: float, default None
+    :type init_m_stored_kg: float, default 0
     :param min_m_stored_kg: Minimum amount of fluid that has to remain in the storage unit. (To be
                    used with controllers)
     :type min_m_stored_kg: float
@@ -471,7 +472,7 @@ def create_heat_exchanger(net, from_junction, to_junction, qext_w, inner_diamete
 
 
 def create_pipe(net, from_junction, to_junction, std_type, length_km, loss_coefficient=0,
-                sections=1, text_k=0, name=None, index=None,
+                sections=1, text_k=None, name=None, index=None,
                 geodata=None, in_service=True, type="pipe", **kwargs):
     """
     Creates a pipe element in net["pipe"] from pipe parameters.
@@ -668,7 +669,7 @@ def create_valve(net, junction, element, et, inner_diameter_mm, opened=True, los
             highest already existing index is selected.
     :type index: int, default None
     :param type: An identifier for special types of valves
-    :type type: str, default None
+    :type type: str, default "valve"
     :param kwargs: Additional keyword arguments will be added as further columns to the\
             net["valve"] table
     :return: index - The unique ID of the created element
@@ -1075,6 +1076,7 @@ def create_pressure_control(
 
     """
     from pandapipes.toolbox import check_pressure_controllability
+    _check_junction_element(net, controlled_junction)
     if (check_controllability and
             not check_pressure_controllability(net, to_junction, controlled_junction)):
         return logger.error('The controlled junction of the created pressure control '
